@@ -2,6 +2,7 @@ import Casket.Proofs.PeerBytes
 import Casket.Proofs.FCGI
 import Casket.Spec.PeerBytes
 import Casket.Generated.Mitm
+import Casket.Props.C20
 /-
 C19 — Bytes from network peers cannot crash handlers or skew what is recorded.
 
@@ -53,6 +54,17 @@ including names longer than a record. -/
 theorem C19_pairs_total (typ id : Nat) (ps : List Casket.FCGI.Pair) :
     IsOk (Casket.FCGI.writePairs typ id ps) :=
   Casket.FCGI.writePairs_ok typ id ps
+
+/-- Placeholder expansion (`httpserver.Replacer`, modelled by slice C20 in Model/Replacer.lean):
+for every format and every request — every header, cookie, query, path, Host and remote-address
+text a peer can send, carried by the environment `σ` — `Replace` returns a value: no index or slice
+expression of `Replace`/`getSubstitution` (`key[1]`, `key[2:len(key)-1]`, `labels[n-1]`, …) goes out
+of range and the scan terminates.  This is slice C20's `C20_total`, restated here because C19 names
+the placeholders; the stream c19.replacer runs the real `Replace` on hostile request text against
+that same model. -/
+theorem C19_replacer_total (σ : Casket.Replacer.Env) (fmt : Casket.Replacer.Bytes) :
+    ∃ out, Casket.Replacer.replace σ fmt = .ok out :=
+  Casket.Props.C20.C20_total σ fmt
 
 /-- What is recorded about a ClientHello does not depend on how the bytes were split across
 reads: every segmentation (empty reads included) records what the unsplit delivery records. -/
